@@ -207,8 +207,10 @@ func init() {
 				"counter c\n/^(\\w+) procs=(\\d+) load=(\\d+\\.\\d+)$/ {\n  $3 || $2 {\n    c++\n  }\n}\n",
 				"counter c\n/^(\\w+) procs=(\\d+) load=(\\d+\\.\\d+)$/ {\n  len($1) > 3 || strtol($2, 10) {\n    c++\n  }\n}\n",
 				"counter c\n/^(\\w+) procs=(\\d+) load=(\\d+\\.\\d+)$/ {\n  $2 {\n    c++\n  }\n}\n",
+				"counter c\n/^(\\w*) procs/ && len($1) && 1 {\n  c++\n}\n",
+				"counter c\n/^(\\w*) procs/ && (len($1) || 0) {\n  c++\n}\n",
 			} {
-				g.emit(vmCase{"-", p, []string{"web1 procs=240 load=0.5", "web2 procs=12 load=1.5", "w procs=0 load=0.0", "nomatch"}}.fields()...)
+				g.emit(vmCase{"-", p, []string{"web1 procs=240 load=0.5", "web2 procs=12 load=1.5", "w procs=0 load=0.0", "nomatch", " procs=1 load=0.1"}}.fields()...)
 			}
 			// every expression that has no value (a pattern, a pattern constant, a call that returns
 			// nothing) in every place that takes a value: each argument of each builtin, an index key,
